@@ -302,6 +302,26 @@ func (fr *Frame) setHeld(st *State, m Val, v int, _ bool) {
 func (fr *Frame) nativeInvoke(st *State, c *ssa.CallCommon, args []Val) (Val, bool) {
 	r := fr.run
 	sig := c.Signature()
+	if types.TypeString(c.Value.Type(), nil) == "context.Context" {
+		// ghost: done(ctx) becomes true when a receive from ctx.Done() is selected; afterwards ctx.Err() is non-nil
+		name := r.eng.regHeap("GH_ctxdone", "(Array Iface Bool)", nil)
+		ctx := r.toTV(st, args[0], c.Value.Type())
+		switch c.Method.Name() {
+		case "Done":
+			ch := r.freshOf(st, "donech", sig.Results().At(0).Type())
+			if fr.doneChans == nil {
+				fr.doneChans = map[string]string{}
+			}
+			fr.doneChans[ch.S] = ctx.S
+			r.assumed["native: context.Context: Err() is non-nil once a receive from Done() has been selected"] = true
+			return ch, true
+		case "Err":
+			h := r.heapGet(st, name)
+			e := r.freshOf(st, "ctxerr", sig.Results().At(0).Type())
+			r.assume(st, implies(app("select", h, ctx.S), not(eq(app("i_tag", e.S), "0"))))
+			return e, true
+		}
+	}
 	switch c.Method.Name() {
 	case "Error", "String":
 		if sig.Params().Len() == 0 && sig.Results().Len() == 1 {
